@@ -265,6 +265,36 @@ fn file_facts(file: &[u8]) -> String {
     match FrameIterator::new(Cursor::new(file.to_vec())) {
         Ok(it) => {
             s.push_str(&format!(" {} metalen={}", meta_str(&it), it.metadata_len()));
+            {
+                use flac_codec::metadata::{SeekPoint, SeekTable, Padding};
+                let bl = it.metadata();
+                let si = bl.streaminfo();
+                s.push_str(&format!(
+                    " si_minbs={} si_maxbs={} si_minfs={} si_maxfs={}",
+                    si.minimum_block_size,
+                    si.maximum_block_size,
+                    si.minimum_frame_size.map(|x| x.get()).unwrap_or(0),
+                    si.maximum_frame_size.map(|x| x.get()).unwrap_or(0)
+                ));
+                match bl.get::<SeekTable>() {
+                    Some(t) => {
+                        let pts: Vec<String> = t
+                            .points
+                            .iter()
+                            .map(|p| match p {
+                                SeekPoint::Defined { sample_offset, byte_offset, frame_samples } => {
+                                    format!("{}:{}:{}", sample_offset, byte_offset, frame_samples)
+                                }
+                                SeekPoint::Placeholder => "P".to_string(),
+                            })
+                            .collect();
+                        s.push_str(&format!(" seektable={}", if pts.is_empty() { "empty".to_string() } else { pts.join(",") }));
+                    }
+                    None => s.push_str(" seektable=none"),
+                }
+                let pads: Vec<String> = bl.get_all::<Padding>().map(|p| u32::from(p.size).to_string()).collect();
+                s.push_str(&format!(" pads={}", if pads.is_empty() { "-".to_string() } else { pads.join(",") }));
+            }
             let mut lens = Vec::new();
             let mut offs = Vec::new();
             let mut bad = String::new();
@@ -289,6 +319,7 @@ fn file_facts(file: &[u8]) -> String {
 
 fn finish_file(res: Result<(), String>, file: &[u8]) -> String {
     match res {
+        Ok(()) if file.len() > 4_000_000 => format!("ok filelen={}", file.len()),
         Ok(()) => format!("ok file={}{}", hex(file), file_facts(file)),
         Err(e) => format!("err {} file={}", e, hex(file)),
     }
@@ -298,21 +329,123 @@ fn finish_file(res: Result<(), String>, file: &[u8]) -> String {
 /// fe=byte : pcm = interleaved samples, serialised by the harness at ceil(bps/8) bytes in `endian`,
 ///           chunks = byte counts;   fe=sample : chunks = sample counts (interleaved);
 /// fe=chan : chunks = PCM-frame counts.  A final `fin=0` skips finalize (drop only).
+/// The underlying stream is instrumented: `failat=<n> fkind=<perm|intr|once|short:k> fonly=<wfs>`
+/// inject a fault; the bytes present just before `finalize` are compared with the finished file.
 fn wr(f: &Fields) -> String {
+    let (res, io, prefin) = wr_inner(f);
+    let start = num::<usize>(f, "start", 0);
+    let file = io.data();
+    let body = &file[start.min(file.len())..];
+    let mut out = finish_file(res.clone(), body);
+    {
+        let st = io.0.borrow();
+        out.push_str(&format!(" ncalls={} tripped={}", st.ncalls, st.tripped));
+        if f.contains_key("log") {
+            let l: Vec<String> = st.log.iter().map(|(k, a, l)| format!("{}{}:{}", k, a, l)).collect();
+            out.push_str(&format!(" iolog={}", if l.is_empty() { "-".to_string() } else { l.join(",") }));
+        }
+    }
+    if res.is_ok() {
+        // frames written before finalize must be untouched by the header rewrite, the prefix before
+        // the stream start must be untouched, and the metadata region must keep its length
+        if let Some(pre) = &prefin {
+            let ok = pre.len() <= file.len() && pre[..start.min(pre.len())] == file[..start.min(pre.len())] && {
+                use flac_codec::stream::FrameIterator;
+                match FrameIterator::new(Cursor::new(body.to_vec())) {
+                    Ok(it) => {
+                        let ml = it.metadata_len() as usize + start;
+                        ml <= pre.len() && pre[ml..] == file[ml..pre.len()]
+                    }
+                    Err(_) => false,
+                }
+            };
+            out.push_str(&format!(" prefin_ok={}", ok));
+        }
+        // regenerate the seek table from the finished file with the same interval
+        if let Some(sk) = f.get("seek") {
+            use flac_codec::encode::{SeekTableInterval, generate_seektable};
+            use flac_codec::metadata::{BlockList, SeekPoint, SeekTable};
+            let interval = match sk.as_str() {
+                t if t.starts_with("frames:") => t[7..].parse::<usize>().ok().and_then(std::num::NonZero::new).map(SeekTableInterval::Frames),
+                t if t.starts_with("secs:") => t[5..].parse::<u8>().ok().and_then(std::num::NonZero::new).map(SeekTableInterval::Seconds),
+                "default" => Some(SeekTableInterval::default()),
+                _ => None,
+            };
+            if let Some(iv) = interval {
+                let have: Option<Vec<SeekPoint>> = BlockList::read(Cursor::new(body.to_vec()))
+                    .ok()
+                    .and_then(|bl| bl.get::<SeekTable>().map(|t| t.points.iter().filter(|p| matches!(p, SeekPoint::Defined { .. })).cloned().collect()));
+                if let Some(have) = have {
+                    match generate_seektable(Cursor::new(body.to_vec()), iv) {
+                        Ok(t) => {
+                            let regen: Vec<SeekPoint> = t.points.iter().cloned().collect();
+                            out.push_str(&format!(" regen_ok={}", regen == have));
+                        }
+                        Err(e) => out.push_str(&format!(" regen_ok=ERR:{}", errclass(&e))),
+                    }
+                }
+            }
+        }
+    }
+    if num::<u8>(f, "ref", 0) != 0 && out.starts_with("ok") {
+        // reference: the same PCM (whole PCM frames only) in ONE call of the sample writer
+        let mut g = f.clone();
+        g.insert("fe".to_string(), "sample".to_string());
+        g.insert("chunks".to_string(), "-".to_string());
+        g.remove("failat");
+        let ch = num::<u8>(f, "ch", 1).max(1) as usize;
+        let pcm = ints::<i32>(get(f, "pcm"));
+        let whole = &pcm[..pcm.len() - pcm.len() % ch];
+        g.insert("pcm".to_string(), join(whole.iter()));
+        if f.contains_key("total") && get(f, "total") != "none" {
+            g.insert("total".to_string(), whole.len().to_string());
+        }
+        let (r, rio, _) = wr_inner(&g);
+        let rf = rio.data();
+        out.push_str(&match r {
+            Ok(()) => format!(" sameasref={}", rf[start.min(rf.len())..] == *body),
+            Err(e) => format!(" sameasref=referr:{}", e),
+        });
+    }
+    out
+}
+
+fn fault_of(f: &Fields, io: &Shared) {
+    if let Some(at) = opt_num::<usize>(f, "failat") {
+        let kind = match get(f, "fkind") {
+            "intr" => FaultKind::Interrupted,
+            "once" => FaultKind::Once,
+            k if k.starts_with("short:") => FaultKind::Short(k[6..].parse().unwrap()),
+            _ => FaultKind::Permanent,
+        };
+        io.fail(at, kind, get(f, "fonly"));
+    }
+}
+
+fn wr_inner(f: &Fields) -> (Result<(), String>, Shared, Option<Vec<u8>>) {
+    let start = num::<usize>(f, "start", 0);
+    let io = Shared::new(start);
     let opts = match options(f) {
         Ok(o) => o,
-        Err(e) => return format!("err {}", e),
+        Err(e) => return (Err(e), io, None),
     };
+    fault_of(f, &io);
     let rate = num::<u32>(f, "rate", 44100);
     let ch = num::<u8>(f, "ch", 1);
     let bps = num::<u32>(f, "bps", 16);
     let total = opt_num::<u64>(f, "total");
-    let pcm = ints::<i32>(get(f, "pcm"));
+    let pcm = match f.get("pcmgen") {
+        // `const:<n>:<v>` = n interleaved samples of value v (for very long streams)
+        Some(g) if g.starts_with("const:") => {
+            let p: Vec<&str> = g.split(':').collect();
+            vec![p[2].parse::<i32>().unwrap(); p[1].parse::<usize>().unwrap()]
+        }
+        _ => ints::<i32>(get(f, "pcm")),
+    };
     let chunks = ints::<usize>(get(f, "chunks"));
-    let start = num::<usize>(f, "start", 0);
     let be = get(f, "endian") == "be";
-    let mut cur = Cursor::new(vec![0xAAu8; start]);
-    cur.set_position(start as u64);
+    let fin = num::<u8>(f, "fin", 1) != 0;
+    let mut prefin: Option<Vec<u8>> = None;
     let res: Result<(), String> = match get(f, "fe") {
         "byte" => {
             let bytes_per = (bps.div_ceil(8)) as usize;
@@ -327,11 +460,12 @@ fn wr(f: &Fields) -> String {
                     raw.extend_from_slice(&le[..bytes_per.min(4)]);
                 }
             }
+            #[allow(clippy::too_many_arguments)]
             fn go<E: flac_codec::byteorder::Endianness>(
-                cur: &mut Cursor<Vec<u8>>, e: E, opts: flac_codec::encode::Options, rate: u32, bps: u32, ch: u8,
-                total: Option<u64>, raw: &[u8], chunks: &[usize], fin: bool,
+                io: &Shared, e: E, opts: flac_codec::encode::Options, rate: u32, bps: u32, ch: u8,
+                total: Option<u64>, raw: &[u8], chunks: &[usize], fin: bool, prefin: &mut Option<Vec<u8>>,
             ) -> Result<(), String> {
-                let mut w = FlacByteWriter::endian(cur, e, opts, rate, bps, ch, total).map_err(|e| errclass(&e))?;
+                let mut w = FlacByteWriter::endian(io.clone(), e, opts, rate, bps, ch, total).map_err(|e| errclass(&e))?;
                 let mut pos = 0;
                 for c in chunks {
                     let end = (pos + c).min(raw.len());
@@ -341,17 +475,17 @@ fn wr(f: &Fields) -> String {
                 if pos < raw.len() {
                     w.write_all(&raw[pos..]).map_err(|e| ioclass(&e))?;
                 }
+                *prefin = Some(io.data());
                 if fin { w.finalize().map_err(|e| errclass(&e)) } else { drop(w); Ok(()) }
             }
-            let fin = num::<u8>(f, "fin", 1) != 0;
             if be {
-                go(&mut cur, BigEndian, opts, rate, bps, ch, total, &raw, &chunks, fin)
+                go(&io, BigEndian, opts, rate, bps, ch, total, &raw, &chunks, fin, &mut prefin)
             } else {
-                go(&mut cur, LittleEndian, opts, rate, bps, ch, total, &raw, &chunks, fin)
+                go(&io, LittleEndian, opts, rate, bps, ch, total, &raw, &chunks, fin, &mut prefin)
             }
         }
         "sample" => (|| {
-            let mut w = FlacSampleWriter::new(&mut cur, opts, rate, bps, ch, total).map_err(|e| errclass(&e))?;
+            let mut w = FlacSampleWriter::new(io.clone(), opts, rate, bps, ch, total).map_err(|e| errclass(&e))?;
             let mut pos = 0;
             for c in &chunks {
                 let end = (pos + c).min(pcm.len());
@@ -361,10 +495,11 @@ fn wr(f: &Fields) -> String {
             if pos < pcm.len() {
                 w.write(&pcm[pos..]).map_err(|e| errclass(&e))?;
             }
-            if num::<u8>(f, "fin", 1) != 0 { w.finalize().map_err(|e| errclass(&e)) } else { drop(w); Ok(()) }
+            prefin = Some(io.data());
+            if fin { w.finalize().map_err(|e| errclass(&e)) } else { drop(w); Ok(()) }
         })(),
         "chan" => (|| {
-            let mut w = FlacChannelWriter::new(&mut cur, opts, rate, bps, ch, total).map_err(|e| errclass(&e))?;
+            let mut w = FlacChannelWriter::new(io.clone(), opts, rate, bps, ch, total).map_err(|e| errclass(&e))?;
             let chn = ch.max(1) as usize;
             let frames = pcm.len() / chn;
             let planar: Vec<Vec<i32>> = (0..chn).map(|c| (0..frames).map(|i| pcm[i * chn + c]).collect()).collect();
@@ -380,30 +515,12 @@ fn wr(f: &Fields) -> String {
                 w.write(&part).map_err(|e| errclass(&e))?;
                 pos = end;
             }
-            if num::<u8>(f, "fin", 1) != 0 { w.finalize().map_err(|e| errclass(&e)) } else { drop(w); Ok(()) }
+            prefin = Some(io.data());
+            if fin { w.finalize().map_err(|e| errclass(&e)) } else { drop(w); Ok(()) }
         })(),
         other => Err(format!("harness-error bad-fe {}", other)),
     };
-    let file = cur.into_inner();
-    let mut out = finish_file(res, &file[start.min(file.len())..]);
-    if num::<u8>(f, "ref", 0) != 0 && out.starts_with("ok") {
-        // reference: the same PCM (whole PCM frames only) in ONE call of the sample writer
-        let chn = ch.max(1) as usize;
-        let whole = &pcm[..pcm.len() - pcm.len() % chn];
-        let mut rc = Cursor::new(vec![0xAAu8; start]);
-        rc.set_position(start as u64);
-        let r = (|| {
-            let mut w = FlacSampleWriter::new(&mut rc, options(f).unwrap(), rate, bps, ch, total.map(|_| whole.len() as u64)).map_err(|e| errclass(&e))?;
-            w.write(whole).map_err(|e| errclass(&e))?;
-            w.finalize().map_err(|e| errclass(&e))
-        })();
-        let rf = rc.into_inner();
-        out.push_str(&match r {
-            Ok(()) => format!(" sameasref={}", rf[start..] == file[start.min(file.len())..]),
-            Err(e) => format!(" sameasref=referr:{}", e),
-        });
-    }
-    out
+    (res, io, prefin)
 }
 
 /// structural parser (`stream::Frame::read{,_subset}`), re-serialisation and expansion
